@@ -1,6 +1,6 @@
 // C16 — lazy.Eval: trampolined evaluation is faithful, stack-safe and run-once.
 //
-// Eight kinds of batches (see layout()):
+// Nine kinds of batches (see layout()):
 //
 //	tree  : PRNG expression trees over Done/Call/TailCall/TailCall1..9/Func1..3/Map/FlatMap/Map2
 //	        (methods and package functions) are evaluated by the library and by a strict
@@ -24,6 +24,8 @@
 //	        nil-inside-an-interface / non-nil values; run-once and value identity under repeated
 //	        demands, Map2(x,x), DAG extensions (elem.go).
 //	concelem : the elem cases shared by 2..32 goroutines (-race build).
+//	elemtree : trees and DAGs of the tree / dag generators over Eval[any|error|*int|[]int|func|struct],
+//	        every multiple of 3 encoded as nil / zero (elemtree.go).
 //
 // Discipline for everything built here: every value is used at least twice and earlier
 // results are looked at again after later uses.
@@ -1754,14 +1756,14 @@ func runConcDagCase(w *vrt.W, i int) {
 // layout
 // ======================================================================================
 
-type layoutT struct{ tree, depth, seq, conc, dag, concdag, elem, concelem int }
+type layoutT struct{ tree, depth, seq, conc, dag, concdag, elem, concelem, elemtree int }
 
 func layout(tier string) layoutT {
 	np := len(programs())
 	if tier == "thorough" {
-		return layoutT{tree: 32, depth: np, seq: 4, conc: 16, dag: 16, concdag: 8, elem: 4, concelem: 8}
+		return layoutT{tree: 32, depth: np, seq: 4, conc: 16, dag: 16, concdag: 8, elem: 4, concelem: 8, elemtree: 8}
 	}
-	return layoutT{tree: 8, depth: np, seq: 2, conc: 8, dag: 8, concdag: 4, elem: 2, concelem: 4}
+	return layoutT{tree: 8, depth: np, seq: 2, conc: 8, dag: 8, concdag: 4, elem: 2, concelem: 4, elemtree: 2}
 }
 
 func batchKind(tier string, b int) (kind string, k int) {
@@ -1796,7 +1798,11 @@ func batchKind(tier string, b int) (kind string, k int) {
 	if b < l.elem {
 		return "elem", b
 	}
-	return "concelem", b - l.elem
+	b -= l.elem
+	if b < l.concelem {
+		return "concelem", b
+	}
+	return "elemtree", b - l.concelem
 }
 
 func main() {
@@ -1804,7 +1810,7 @@ func main() {
 		Property: "C16",
 		Batches: func(tier string) int {
 			l := layout(tier)
-			return l.tree + 2*l.depth + l.seq + l.conc + l.dag + l.concdag + l.elem + l.concelem
+			return l.tree + 2*l.depth + l.seq + l.conc + l.dag + l.concdag + l.elem + l.concelem + l.elemtree
 		},
 		Cases: func(tier string, b int) int {
 			kind, _ := batchKind(tier, b)
@@ -1836,6 +1842,8 @@ func main() {
 				return 300
 			case "elem", "concelem":
 				return elemCases(tier, kind)
+			case "elemtree":
+				return elemTreeCases(tier)
 			}
 			if th {
 				return 1500
@@ -1847,6 +1855,11 @@ func main() {
 			return kind == "conc" || kind == "concdag" || kind == "concelem"
 		},
 		WorkerProcs: 8,
+		// The CPU watchdog is only the backstop behind the logical budgets. A 2*10^7-step depth
+		// case costs ~4 CPU-s on an idle machine but was measured at 27 CPU-s (and once beyond
+		// the default 30) with the machine at load 100..300: CPU time is not load-independent
+		// (SMT siblings, shared caches, GC workers on 8 Ps).
+		CaseCPUBudget: 120,
 		Run: func(w *vrt.W) {
 			kind, k := batchKind(w.Tier, w.Batch)
 			for i := w.From; i < w.To; i++ {
@@ -1869,6 +1882,8 @@ func main() {
 					runElemSeqCase(w, i, k)
 				case "concelem":
 					runElemConcCase(w, i, k)
+				case "elemtree":
+					runElemTreeCase(w, i)
 				}
 			}
 			for k, h := range treeHits {
@@ -1882,12 +1897,12 @@ func main() {
 				}
 			}
 		},
-		Rule: "Eight case families. (a) tree: PRNG lazy.Eval[int] expression tree (3..40 nodes, depth <= 10) over Done, Call, Func1..3, TailCall, TailCall1..9, Eval.Map/lazy.Map, Eval.FlatMap/lazy.FlatMap (continuation builds a subtree from the bound value, optionally branching on its parity), lazy.Map2; Get (2..3 times, sometimes lazy.Run) is compared with a strict recursive interpreter and every Call/TailCall*/FuncN wrapper created has its own execution counter (<= 1). (b) depth: one of 13 tail-recursive programs (count-down via TailCall, accumulator sum via TailCall2, mutual even/odd via TailCall1, bind in tail position, argument rotation through each of TailCall1..9) at n in {10^3, ~10^4, ~10^5, ~10^6, 2*10^6 [, ~10^7, 2*10^7 thorough]} (for n <= 10^5 the same Eval value is evaluated a second time and must give the same result); runtime.Callers frame count is sampled inside the thunks (first 1024 steps, every 1024th, last 64) relative to the frame calling Get, bound 64 for every n. (c) seq: a counting thunk wrapped by lazy.Call/TailCall/TailCall3/Memoize/Func1, fp.Memoize, fn1.Memoize, derived Evals sharing one Call/TailCall, fp.MakeList head/tail, list.Generate/list.Map cells is requested 2..7 times; whole lazy lists (Generate, Map, Map over Generate, Recurrence1, Scan, Collect, Combine) are traversed 2..4 times from the same root with per-index source counters. (d) conc (race build, GOMAXPROCS 8): the same targets shared by 2..32 goroutines released by a barrier with PRNG-chosen Gosched yields before the request and inside the thunk. (e) dag: 3..8 bindings v0..vm; the expression of a binding may use earlier bindings as sub-expressions (the library side builds the Eval value of a binding once, every use is that same value); v0 carries a chain of 0..20 pending Map/FlatMap continuations, most later bindings are direct extensions of a preferred (hub) binding through Eval.Map, lazy.Map, Eval.FlatMap, lazy.FlatMap, lazy.Map2 (as first, second, or both operands) or an alias followed by a chain; a PRNG schedule interleaves building with Get / lazy.Run of already built bindings, then evaluates every binding 2..3 more times in PRNG order; every evaluation is compared with the strict interpreter of the same DAG, every Call/TailCall*/FuncN wrapper created runs at most once, a logical clock over all user callbacks bounds every evaluation. (f) concdag (race build): a base (Done / Call / TailCall(Call) + 0..20 pending continuations), an independent second value, a Map2 over both and one extension are built before the barrier; 2..32 goroutines each extend the base (the seven extension forms) and evaluate their own extension 1..2 times, or evaluate one of the shared values; values are compared with plain arithmetic, the Call thunk runs at most once, base and the pre-built extension are evaluated again after the round. (g) elem: case number gi (counted through the batches of the family) takes combination gi mod N of (construct, element type, result value): constructs lazy.Call, lazy.TailCall (thunk returns Done(v), or the zero Eval when v is the zero value), lazy.TailCall(lazy.Call), lazy.TailCall1..9, lazy.Memoize, fp.Memoize, fn1.Memoize, lazy.Func1..3, fp.MakeList head thunk / head thunk answering None / tail thunk, list.Generate, list.Map, list.FlatMap (head and tail thunk share one deferred fn(head)) and list.Recurrence1 cells; element types error, any, a two-method-set small interface, fp.List[int], *int, []int, map[string]int, a struct, func() int, int, string; result values nil / zero, an interface holding a nil pointer / zero int / empty list, and non-nil values with a fresh identity (pointer, backing array, map, closure token, pointer or struct value inside the interface). The value is built once, the thunk under test returns it and counts its executions with an atomic; 2..8 PRNG-chosen demands from the menu of the construct (Eval: Get, lazy.Run, Map2(x,x), x.Map(id), lazy.FlatMap(x,Done), Map2(x.Map(id),x.FlatMap(Done)), Get / Run of 0..3 extensions of x built once before the first demand: x.Map(id), Map2(x,x), x.FlatMap(_=>x), prev.FlatMap(Done), Map2(prev,x); memoised function: call, two calls, lazy.Call(m), Map2(Call(m),Call(m)); list cell: Head, NonEmpty+Head, Unapply, ToSeq, Foreach, list.Map(l,id), list.Zip(l,l), list.Combine(l,l)); after every demand the thunk has run at most once, every value delivered (also both operands seen by the Map2 callback) is the value built (== on pointers / interface values, same backing array / map, closure token; nil and empty are not told apart for slices and maps), the arguments of TailCallN / FuncN / fn1.Memoize / list.Map callbacks are the ones given. (h) concelem (race build): the same combinations, 2..32 goroutines released by a barrier make 1..3 demands each with PRNG yields before the demand and inside the thunk, one more demand after the round. distinct_nontrivial counts distinct fingerprints of: trees that contain (elem) every sequential result-value case (construct, element type, value, demand script); concelem rounds with at least two goroutines overlapping; a deferred node (Call/FuncN/TailCall*) under a FlatMap/Map2 binder and have depth >= 2; (program, n) depth cases; seq cases (target, requests, base) and list traversals with >= 2 elements; concurrent rounds in which at least two goroutines were observed inside Get at the same time; DAG cases in which a binding that directly extends a shared base was evaluated at least twice after a later-built binding extending the same base existed; concdag rounds with at least two goroutines overlapping.",
+		Rule: "Nine case families. (a) tree: PRNG lazy.Eval[int] expression tree (3..40 nodes, depth <= 10) over Done, Call, Func1..3, TailCall, TailCall1..9, Eval.Map/lazy.Map, Eval.FlatMap/lazy.FlatMap (continuation builds a subtree from the bound value, optionally branching on its parity), lazy.Map2; Get (2..3 times, sometimes lazy.Run) is compared with a strict recursive interpreter and every Call/TailCall*/FuncN wrapper created has its own execution counter (<= 1). (b) depth: one of 13 tail-recursive programs (count-down via TailCall, accumulator sum via TailCall2, mutual even/odd via TailCall1, bind in tail position, argument rotation through each of TailCall1..9) at n in {10^3, ~10^4, ~10^5, ~10^6, 2*10^6 [, ~10^7, 2*10^7 thorough]} (for n <= 10^5 the same Eval value is evaluated a second time and must give the same result); runtime.Callers frame count is sampled inside the thunks (first 1024 steps, every 1024th, last 64) relative to the frame calling Get, bound 64 for every n. (c) seq: a counting thunk wrapped by lazy.Call/TailCall/TailCall3/Memoize/Func1, fp.Memoize, fn1.Memoize, derived Evals sharing one Call/TailCall, fp.MakeList head/tail, list.Generate/list.Map cells is requested 2..7 times; whole lazy lists (Generate, Map, Map over Generate, Recurrence1, Scan, Collect, Combine) are traversed 2..4 times from the same root with per-index source counters. (d) conc (race build, GOMAXPROCS 8): the same targets shared by 2..32 goroutines released by a barrier with PRNG-chosen Gosched yields before the request and inside the thunk. (e) dag: 3..8 bindings v0..vm; the expression of a binding may use earlier bindings as sub-expressions (the library side builds the Eval value of a binding once, every use is that same value); v0 carries a chain of 0..20 pending Map/FlatMap continuations, most later bindings are direct extensions of a preferred (hub) binding through Eval.Map, lazy.Map, Eval.FlatMap, lazy.FlatMap, lazy.Map2 (as first, second, or both operands) or an alias followed by a chain; a PRNG schedule interleaves building with Get / lazy.Run of already built bindings, then evaluates every binding 2..3 more times in PRNG order; every evaluation is compared with the strict interpreter of the same DAG, every Call/TailCall*/FuncN wrapper created runs at most once, a logical clock over all user callbacks bounds every evaluation. (f) concdag (race build): a base (Done / Call / TailCall(Call) + 0..20 pending continuations), an independent second value, a Map2 over both and one extension are built before the barrier; 2..32 goroutines each extend the base (the seven extension forms) and evaluate their own extension 1..2 times, or evaluate one of the shared values; values are compared with plain arithmetic, the Call thunk runs at most once, base and the pre-built extension are evaluated again after the round. (g) elem: case number gi (counted through the batches of the family) takes combination gi mod N of (construct, element type, result value): constructs lazy.Call, lazy.TailCall (thunk returns Done(v), or the zero Eval when v is the zero value), lazy.TailCall(lazy.Call), lazy.TailCall1..9, lazy.Memoize, fp.Memoize, fn1.Memoize, lazy.Func1..3, fp.MakeList head thunk / head thunk answering None / tail thunk, list.Generate, list.Map, list.FlatMap (head and tail thunk share one deferred fn(head)) and list.Recurrence1 cells; element types error, any, a one-method small interface, fp.List[int], *int, []int, map[string]int, a struct, func() int, int, string; result values nil / zero, an interface holding a nil pointer / zero int / empty list, and non-nil values with a fresh identity (pointer, backing array, map, closure token, pointer or struct value inside the interface). The value is built once, the thunk under test returns it and counts its executions with an atomic; 2..8 PRNG-chosen demands from the menu of the construct (Eval: Get, lazy.Run, Map2(x,x), x.Map(id), lazy.FlatMap(x,Done), Map2(x.Map(id),x.FlatMap(Done)), Get / Run of 0..3 extensions of x built once before the first demand: x.Map(id), Map2(x,x), x.FlatMap(_=>x), prev.FlatMap(Done), Map2(prev,x); memoised function: call, two calls, lazy.Call(m), Map2(Call(m),Call(m)); list cell: Head, NonEmpty+Head, Unapply, ToSeq, Foreach, list.Map(l,id), list.Zip(l,l), list.Combine(l,l)); after every demand the thunk has run at most once, every value delivered (also both operands seen by the Map2 callback) is the value built (== on pointers / interface values, same backing array / map, closure token; nil and empty are not told apart for slices and maps), the arguments of TailCallN / FuncN / fn1.Memoize / list.Map callbacks are the ones given. (h) concelem (race build): the same combinations, 2..32 goroutines released by a barrier make 1..3 demands each with PRNG yields before the demand and inside the thunk, one more demand after the round. (i) elemtree: the tree generator of (a) (two of three cases) and the DAG generator of (e) (every third case), built over Eval[T] for T in any, error, *int, []int, func() int, a struct (taken in turn) through an encoding of int in which every multiple of 3 is the nil / zero value of T (any: even values are pointers, odd ones boxed ints); the reference is the strict interpreter with the same normalisation applied to every value the program produces; Get 2..3 times (+ lazy.Run) resp. the DAG schedule; results are decoded and compared (a nil result must be nil), callbacks must receive well-formed encodings, every Call/FuncN/TailCall* wrapper runs at most once and the key says whether its result was nil. distinct_nontrivial counts distinct fingerprints of: trees that contain (elem) every sequential result-value case (construct, element type, value, demand script); concelem rounds with at least two goroutines overlapping; elemtree trees by the rule of (a) and DAGs with at least two uses of shared bindings, per element type; a deferred node (Call/FuncN/TailCall*) under a FlatMap/Map2 binder and have depth >= 2; (program, n) depth cases; seq cases (target, requests, base) and list traversals with >= 2 elements; concurrent rounds in which at least two goroutines were observed inside Get at the same time; DAG cases in which a binding that directly extends a shared base was evaluated at least twice after a later-built binding extending the same base existed; concdag rounds with at least two goroutines overlapping.",
 		Assumptions: []string{
 			"schedules explored are those produced by the Go scheduler with GOMAXPROCS=8 plus PRNG-chosen runtime.Gosched() yields; not all interleavings",
 			"the race detector reports only races that occur on an executed schedule",
 			"stack use is measured as the runtime.Callers frame count inside user thunks (sampled: first 1024 steps, every 1024th step, last 64 steps); library-internal recursion between two thunk invocations that unwinds before the next thunk is only caught by the 64 MB stack limit",
-			"trees, DAGs and depth programs are over Eval[int]; the other element types (interfaces, pointers, slices, maps, structs, funcs, strings) and nil / zero results are covered by the elem / concelem families through one deferred value per case, not through whole expression trees",
+			"the tree, dag and depth families are over Eval[int]; the other element types (interfaces, pointers, slices, maps, structs, funcs, strings) and nil / zero results are covered by the elem / concelem families through one deferred value per case (elem, concelem) and by trees / DAGs over six of these types (elemtree); depth programs stay over int",
 			"DAG cases bind Eval values at the top level of a case only (continuations use bound values but do not bind new shared ones); sharing is irrelevant for the value of strict evaluation, so the reference evaluates each binding once and re-uses the number",
 		},
 		Floors: func(tier string) map[string]int64 {
@@ -1928,6 +1943,7 @@ func main() {
 				f["hit.conc/"+t.name] = 5
 			}
 			elemFloors(tier, f)
+			elemTreeFloors(tier, f)
 			return f
 		},
 		Finish: func(tier string, m *vrt.Merged, cov map[string]any) {
@@ -1967,6 +1983,8 @@ func main() {
 			cov["concurrent_shared_base_rounds"] = m.Counters["concdag.rounds"]
 			cov["result_value_cases_sequential"] = m.Counters["elem.seq.cases"]
 			cov["result_value_rounds_concurrent"] = m.Counters["elem.conc.rounds"]
+			cov["element_type_trees"] = m.Counters["elemtree.trees"]
+			cov["element_type_dags"] = m.Counters["elemdag.cases"]
 			cov["result_value_combinations"] = len(elCombos)
 			cov["result_value_min_cases_per_combination"] = map[string]int64{"sequential": elemPerCombo(tier, "elem"), "concurrent": elemPerCombo(tier, "concelem")}
 			cov["race_reports_inside_fp"] = m.Counters["race.reports_total"] - m.Counters["race.reports_outside_fp"]
